@@ -185,7 +185,9 @@ def _explore_stale(h: Harness, start: Store, max_nodes: int) -> dict[str, tuple[
     n0 = h.project(start)
     seen = {n0.key()}
     work = [n0]
-    labels = h.api_inputs("quick")
+    mine = {"source": ("FINISHED", "NAK", "KEEP_ALIVE", "ACK_EOF"), "dest": ("FD", "METADATA", "EOF", "PROMPT", "ACK_FIN")}[h.which]
+    # PDU kinds routed to the other handler are refused by the admission checks before any state is read (C20-R2)
+    labels = [l for l in h.api_inputs("quick") if not (l[0] == "state_machine" and l[1] is not None and l[1] not in mine) and l[0] != "props"]
     expanded = 0
 
     def has_marker(st: Store) -> bool:
